@@ -168,3 +168,46 @@ class Recorder:
         if "slice::Iter" in s:
             return "inputs"
         return "path@bb%d" % p.start.bb
+
+
+class ExpansionView:
+    """View of the C12 expansion rules (engine E3) restricted to the checks another property states about what the
+    attribute macros emit; the selected obligations are recorded under that property's own rule id."""
+
+    def __init__(self, ctx, rule, keys):
+        self._c = ctx
+        self._rule = rule
+        self._keys = set(keys)
+        self.tier = ctx.tier
+        self.extra = {}
+
+    def _mine(self, key):
+        return any(str(k) in self._keys for k in key)
+
+    def check(self, cond, rule, key, msg, where=None, detail=None):
+        if self._mine(key):
+            return self._c.check(cond, self._rule, key, msg, where, detail)
+        return bool(cond)
+
+    def fail(self, rule, key, msg, where=None):
+        if self._mine(key):
+            self._c.fail(self._rule, key, msg, where)
+
+    def ok(self, rule, instance, detail=None):
+        pass
+
+    def anchor(self, rule, what, found, floor=1, where=None):
+        n = found if isinstance(found, int) else len(found)
+        return n >= floor
+
+    def note(self, s):
+        pass
+
+    def saw(self, body):
+        pass
+
+    def __setattr__(self, k, v):
+        if k in ("_c", "_rule", "_keys", "tier", "extra"):
+            object.__setattr__(self, k, v)
+        else:
+            setattr(self._c, k, v)
